@@ -14,6 +14,8 @@ from props.common import quiet_ccp
 
 ID = "C09"
 LEAN_MODULES = ["Ccp.Props.C09"]
+# bound of the escalated quick run (source fingerprint changed -> thorough generator): keeps that run near two minutes
+ESCALATE_MAX_CASES = 12000
 RULE = ("bundle cases: one base config (random line list of 0..14 lines from the tree generators: commands, comments, blank and "
         "whitespace-only lines incl. interior and trailing blank lines, banner/macro blocks, Latin-1 and non-Latin-1 letters) is "
         "supplied in every input form: list, tuple, str joined with LF or CRLF with and without a final line end, None for the "
